@@ -84,12 +84,7 @@ func NewOrbitDB(ctx context.Context, i coreiface.CoreAPI, options *NewOrbitDBOpt
 }
 
 func (o *orbitDB) Log(ctx context.Context, address string, options *CreateDBOptions) (EventLogStore, error) {
-	if options == nil {
-		options = &CreateDBOptions{}
-	}
-
-	options.Create = boolPtr(true)
-	options.StoreType = stringPtr("eventlog")
+	options = withStoreType(options, "eventlog")
 	store, err := o.Open(ctx, address, options)
 	if err != nil {
 		return nil, fmt.Errorf("unable to open database: %w", err)
@@ -103,6 +98,20 @@ func (o *orbitDB) Log(ctx context.Context, address string, options *CreateDBOpti
 	return logStore, nil
 }
 
+// withStoreType returns a copy of the options with the type set: the value the caller passed
+// may be in use by another call at the same time and is left as it is
+func withStoreType(options *CreateDBOptions, storeType string) *CreateDBOptions {
+	c := CreateDBOptions{}
+	if options != nil {
+		c = *options
+	}
+
+	c.Create = boolPtr(true)
+	c.StoreType = stringPtr(storeType)
+
+	return &c
+}
+
 func stringPtr(s string) *string {
 	return &s
 }
@@ -112,12 +121,7 @@ func boolPtr(b bool) *bool {
 }
 
 func (o *orbitDB) KeyValue(ctx context.Context, address string, options *CreateDBOptions) (KeyValueStore, error) {
-	if options == nil {
-		options = &CreateDBOptions{}
-	}
-
-	options.Create = boolPtr(true)
-	options.StoreType = stringPtr("keyvalue")
+	options = withStoreType(options, "keyvalue")
 
 	store, err := o.Open(ctx, address, options)
 	if err != nil {
@@ -133,12 +137,7 @@ func (o *orbitDB) KeyValue(ctx context.Context, address string, options *CreateD
 }
 
 func (o *orbitDB) Docs(ctx context.Context, address string, options *CreateDBOptions) (DocumentStore, error) {
-	if options == nil {
-		options = &CreateDBOptions{}
-	}
-
-	options.Create = boolPtr(true)
-	options.StoreType = stringPtr("docstore")
+	options = withStoreType(options, "docstore")
 
 	store, err := o.Open(ctx, address, options)
 	if err != nil {
